@@ -35,6 +35,8 @@ TARGETS = [
     "contracts.coordinates_c13:lemma_scatter_points_reproducible",
     "C20:refit:verde.trend:Trend.fit", "C20:refit:verde.spline:Spline.fit", "C20:refit:verde.vector:VectorSpline2D.fit", "C20:refit:verde.neighbors:KNeighbors.fit", "C20:refit:verde.scipygridder:_BaseScipyGridder.fit",
     "contracts.purity_c20:estimator_roundtrip",
+    # repeatability of the block splitters: a fresh splitter with the same seed AND a second split() of the same object (bounded)
+    "contracts.cv_c11:kfold_splits", "contracts.cv_c11:shuffle_splits",
 ]
 MIN_OBLIGATIONS = {"quick": 300, "thorough": 300}
 EXPLANATION = (
@@ -54,4 +56,9 @@ ASSUMPTIONS = ["a call is deterministic given its arguments in the model: the on
 
 
 def bounded(tier, seed):
-    return {"evaluations": 0, "failures": [], "note": "the run-time frame checks (byte-wise comparison of argument arrays before/after) are part of the bounded stage of every other property"}
+    from pyvc.bounded import run_samplers
+
+    # repeatability of the block splitters (fresh splitter with the same seed; second split() of the same object); the
+    # run-time frame checks (byte-wise comparison of argument arrays before/after) are part of the bounded stage of
+    # every other property
+    return run_samplers(["contracts.cv_c11:kfold_splits", "contracts.cv_c11:shuffle_splits"], tier, seed, limit=400 if tier == "thorough" else 120)
